@@ -84,6 +84,14 @@ Proof. intros z r. exact (take_be_be 4 z r). Qed.
 Lemma tb8 : forall z r, take_be 8 (be 8 z ++ r) = Some (z mod 18446744073709551616, r).
 Proof. intros z r. exact (take_be_be 8 z r). Qed.
 
+(* decide the conditions one at a time (never inside a branch that is not taken) *)
+Ltac ifs :=
+  repeat (match goal with
+          | |- context [if ?b then _ else _] =>
+              first [ (let H := fresh in assert (H : b = true) by lia; rewrite H; clear H)
+                    | (let H := fresh in assert (H : b = false) by lia; rewrite H; clear H) ]
+          end; cbv beta iota zeta).
+
 Ltac zcases :=
   repeat (match goal with
           | |- context [?a <? ?b] => destruct (Z.ltb_spec a b); try lia
@@ -99,8 +107,8 @@ Ltac pows :=
   replace (2 ^ (8 * 8)) with 18446744073709551616 by reflexivity.
 
 Ltac sint_case lem :=
-  cbn [app]; unfold mp_dispatch; cbv beta iota zeta; zcases; cbn [andb]; rewrite lem; unfold signed;
-  pows; zcases; repeat f_equal; lia.
+  cbn [app]; unfold mp_dispatch; cbv beta iota zeta; ifs; rewrite lem; unfold signed;
+  pows; ifs; repeat f_equal; lia.
 
 Lemma dispatch_int : forall rd z rest, in_i64 z = true ->
   match mp_int z ++ rest with
@@ -120,8 +128,8 @@ Proof.
     + cbn [app]. unfold mp_dispatch. cbv beta iota zeta.
       destruct (Z.ltb_spec z 0) as [Hn|Hn].
       * assert (E : z mod 256 = z + 256) by lia. rewrite E.
-        zcases. cbn [andb]. repeat f_equal. lia.
-      * assert (E : z mod 256 = z) by lia. rewrite E. zcases. reflexivity.
+        ifs. repeat f_equal. lia.
+      * assert (E : z mod 256 = z) by lia. rewrite E. ifs. reflexivity.
     + destruct (Z.leb_spec (-128) z) as [H3|H3];
         [|destruct (Z.leb_spec (-32768) z) as [H4|H4]; [|destruct (Z.leb_spec (-2147483648) z) as [H5|H5]]].
       * change [208; z mod 256] with (208 :: be 1 z). sint_case tb1.
@@ -146,15 +154,15 @@ Proof.
   unfold utf8_enc.
   destruct (Z.ltb_spec c 128) as [H1|H1];
     [| destruct (Z.ltb_spec c 2048) as [H2|H2]; [| destruct (Z.ltb_spec c 65536) as [H3|H3]]].
-  - cbn [app utf8_dec]. bcases. reflexivity.
-  - cbn [app utf8_dec]. unfold cont. bcases. repeat f_equal. lia.
+  - cbn [app utf8_dec]. ifs. reflexivity.
+  - cbn [app utf8_dec]. unfold cont. ifs. repeat f_equal. lia.
   - cbn [app utf8_dec]. unfold cont.
     assert (E : (224 + c / 4096 - 224) * 4096 + (128 + (c / 64) mod 64 - 128) * 64 + (128 + c mod 64 - 128) = c) by lia.
-    rewrite E. bcases. reflexivity.
+    rewrite E. ifs. reflexivity.
   - cbn [app utf8_dec]. unfold cont.
     assert (E : (240 + c / 262144 - 240) * 262144 + (128 + (c / 4096) mod 64 - 128) * 4096
                 + (128 + (c / 64) mod 64 - 128) * 64 + (128 + c mod 64 - 128) = c) by lia.
-    rewrite E. bcases. reflexivity.
+    rewrite E. ifs. reflexivity.
 Qed.
 
 Lemma utf8_dec_bytes : forall s, str_valid s = true -> utf8_dec (utf8_bytes s) = Some s.
@@ -184,14 +192,268 @@ Proof.
   cbn [Z.ltb Z.compare andb].
   destruct (Z.ltb_spec L 32) as [H1|H1];
     [| destruct (Z.ltb_spec L 256) as [H2|H2]; [| destruct (Z.ltb_spec L 65536) as [H3|H3]]].
-  - cbn [app]. unfold mp_dispatch. cbv beta iota zeta. zcases.
-    replace (160 + L - 160) with L by lia. exact HR.
-  - cbn [app]. unfold mp_dispatch. cbv beta iota zeta. zcases.
-    change (L :: utf8_bytes s ++ rest) with ([L] ++ utf8_bytes s ++ rest).
-    replace [L] with (be 1 L) by (cbn; f_equal; lia).
-    rewrite tb1. replace (L mod 256) with L by lia. exact HR.
-  - cbn [app]. unfold mp_dispatch. cbv beta iota zeta. zcases.
-    rewrite <- app_assoc. rewrite tb2. replace (L mod 65536) with L by lia. exact HR.
-  - cbn [app]. unfold mp_dispatch. cbv beta iota zeta. zcases.
-    rewrite <- app_assoc. rewrite tb4. replace (L mod 4294967296) with L by lia. exact HR.
+  - cbn [app]. unfold mp_dispatch. cbv beta iota zeta. ifs;
+    replace (160 + L - 160) with L by lia; exact HR.
+  - cbn [app]. unfold mp_dispatch. cbv beta iota zeta. ifs;
+    change (L :: utf8_bytes s ++ rest) with ([L] ++ utf8_bytes s ++ rest);
+    replace [L] with (be 1 L) by (cbn; f_equal; lia);
+    rewrite tb1; replace (L mod 256) with L by lia; exact HR.
+  - cbn [app]. unfold mp_dispatch. cbv beta iota zeta. ifs;
+    rewrite <- app_assoc; rewrite tb2; replace (L mod 65536) with L by lia; exact HR.
+  - cbn [app]. unfold mp_dispatch. cbv beta iota zeta. ifs;
+    rewrite <- app_assoc; rewrite tb4; replace (L mod 4294967296) with L by lia; exact HR.
+Qed.
+
+(* ---------------------------------------------------------------- the Go map of a sorted member list *)
+Lemma str_ltb_irrefl : forall a, str_ltb a a = false.
+Proof. induction a as [|x a IH]; [reflexivity|]. cbn [str_ltb]. rewrite Z.ltb_irrefl. exact IH. Qed.
+
+Lemma str_ltb_asym : forall a b, str_ltb a b = true -> str_ltb b a = false.
+Proof.
+  induction a as [|x a IH]; intros [|y b] H; cbn [str_ltb] in *; try congruence.
+  destruct (Z.ltb_spec x y) as [H1|H1]; destruct (Z.ltb_spec y x) as [H2|H2]; try lia; try congruence.
+  apply IH. exact H.
+Qed.
+
+Lemma str_ltb_neq : forall a b, str_ltb a b = true -> str_eqb b a = false.
+Proof.
+  intros a b H. apply str_eqb_neq. intro E. subst b. rewrite str_ltb_irrefl in H. discriminate.
+Qed.
+
+Lemma map_put_last : forall (T : Type) k (x : T) acc,
+  (forall a, In a (map fst acc) -> str_ltb a k = true) -> map_put k x acc = acc ++ [(k, x)].
+Proof.
+  intros T k x. induction acc as [|[k' x'] acc IH]; intro H; [reflexivity|].
+  cbn [map_put app].
+  assert (Hk : str_ltb k' k = true) by (apply H; left; reflexivity).
+  rewrite (str_ltb_neq _ _ Hk), (str_ltb_asym _ _ Hk). f_equal.
+  apply IH. intros a Ha. apply H. right. exact Ha.
+Qed.
+
+Lemma go_map_sorted_acc : forall (T : Type) (ms acc : list (list Z * T)),
+  (forall a b, In a (map fst acc) -> In b (map fst ms) -> str_ltb a b = true) ->
+  ssorted (map fst ms) = true ->
+  fold_left (fun m kx => map_put (fst kx) (snd kx) m) ms acc = acc ++ ms.
+Proof.
+  intros T. induction ms as [|[k x] ms IH]; intros acc Hlt Hs.
+  - cbn. rewrite app_nil_r. reflexivity.
+  - cbn [map fst ssorted] in Hs. apply andb_true_iff in Hs. destruct Hs as [Hk Hs].
+    rewrite forallb_forall in Hk.
+    cbn [fold_left fst snd]. rewrite map_put_last.
+    + rewrite IH; [rewrite <- app_assoc; reflexivity| |exact Hs].
+      intros a b Ha Hb. rewrite map_app in Ha. apply in_app_or in Ha. destruct Ha as [Ha|Ha].
+      * apply Hlt; [exact Ha|right; exact Hb].
+      * cbn in Ha. destruct Ha as [Ha|[]]. subst a. apply Hk. exact Hb.
+    + intros a Ha. apply Hlt; [exact Ha|left; reflexivity].
+Qed.
+
+Theorem go_map_sorted : forall (T : Type) (ms : list (list Z * T)),
+  ssorted (map fst ms) = true -> go_map ms = ms.
+Proof.
+  intros T ms H. unfold go_map. rewrite go_map_sorted_acc; [reflexivity| |exact H].
+  intros a b [].
+Qed.
+
+(* ---------------------------------------------------------------- containers *)
+Definition reads_back (rd : list Z -> option (gtree * list Z)) (g : gtree) : Prop :=
+  forall rest, rd (mp_bytes g ++ rest) = Some (g, rest).
+
+Lemma read_items_bytes : forall rd l rest, Forall (reads_back rd) l ->
+  read_items rd (length l) (flat_map mp_bytes l ++ rest) = Some (l, rest).
+Proof.
+  intros rd. induction l as [|g l IH]; intros rest H; [reflexivity|].
+  inversion H as [|? ? Hg Hl]; subst. cbn [length read_items flat_map].
+  rewrite <- app_assoc, (Hg _), IH by exact Hl. reflexivity.
+Qed.
+
+Definition member_bytes (kx : list Z * gtree) : list Z :=
+  match kx with (k, x) => mp_str k ++ mp_bytes x end.
+
+Lemma read_members_bytes : forall rd ms rest,
+  Forall (fun kx => reads_back rd (GStr (fst kx)) /\ reads_back rd (snd kx)) ms ->
+  read_members rd (length ms) (flat_map member_bytes ms ++ rest) = Some (ms, rest).
+Proof.
+  intros rd. induction ms as [|[k x] ms IH]; intros rest H; [reflexivity|].
+  inversion H as [|? ? Hg Hl]; subst. destruct Hg as [Hk Hx]. cbn [fst snd] in *.
+  cbn [length read_members flat_map member_bytes].
+  rewrite <- !app_assoc.
+  change (mp_str k) with (mp_bytes (GStr k)). rewrite (Hk _), (Hx _), IH by exact Hl. reflexivity.
+Qed.
+
+Lemma length_flat_map_ge : forall (A : Type) (f : A -> list Z) (l : list A),
+  (forall x, In x l -> (1 <= length (f x))%nat) -> (length l <= length (flat_map f l))%nat.
+Proof.
+  intros A f. induction l as [|x l IH]; intro H; [cbn; lia|].
+  cbn [flat_map length]. rewrite app_length.
+  pose proof (H x (or_introl eq_refl)). pose proof (IH (fun y Hy => H y (or_intror Hy))). lia.
+Qed.
+
+Lemma mp_len_nonempty : forall a b c d e l, (1 <= length (mp_len a b c d e l))%nat.
+Proof.
+  intros. unfold mp_len.
+  destruct ((0 <? a) && (l <? a)); [cbn; lia|].
+  destruct ((0 <? c) && (l <? 256)); [cbn; lia|].
+  destruct (l <? 65536); cbn; lia.
+Qed.
+
+Lemma mp_bytes_nonempty : forall g, (1 <= length (mp_bytes g))%nat.
+Proof.
+  destruct g; cbn [mp_bytes]; try (cbn; lia).
+  - unfold mp_int. repeat match goal with |- context [if ?b then _ else _] => destruct b end; cbn; lia.
+  - unfold mp_str, str_hdr. rewrite app_length. pose proof (mp_len_nonempty 32 160 217 218 219 (Z.of_nat (length (utf8_bytes s)))). lia.
+  - unfold arr_hdr. rewrite app_length. pose proof (mp_len_nonempty 16 144 0 220 221 (Z.of_nat (length l))). lia.
+  - unfold map_hdr. rewrite app_length. pose proof (mp_len_nonempty 16 128 0 222 223 (Z.of_nat (length ms))). lia.
+Qed.
+
+(* the header of a container of n entries followed by its entries, read through mp_dispatch *)
+Lemma dispatch_arr : forall rd l rest, u32 (length l) = true -> Forall (reads_back rd) l ->
+  match mp_bytes (GArr l) ++ rest with
+  | c :: r => mp_dispatch rd c r = Some (GArr l, rest)
+  | [] => False
+  end.
+Proof.
+  intros rd l rest Hu Hl. unfold u32 in Hu. cbn [mp_bytes]. unfold arr_hdr, mp_len.
+  pose proof (read_items_bytes rd l rest Hl) as HR.
+  assert (HC : count_ok (Z.of_nat (length l)) (flat_map mp_bytes l ++ rest) = true).
+  { unfold count_ok. rewrite app_length.
+    pose proof (length_flat_map_ge _ mp_bytes l (fun x _ => mp_bytes_nonempty x)). lia. }
+  set (L := Z.of_nat (length l)) in *.
+  assert (HN : Z.to_nat L = length l) by (subst L; apply Nat2Z.id).
+  assert (HL : 0 <= L < 4294967296) by lia.
+  cbn [Z.ltb Z.compare andb].
+  destruct (Z.ltb_spec L 16) as [H1|H1]; [| destruct (Z.ltb_spec L 65536) as [H3|H3]].
+  - cbn [app]. unfold mp_dispatch. cbv beta iota zeta. ifs.
+    replace (144 + L - 144) with L by lia. rewrite HC, HN, HR. reflexivity.
+  - cbn [app]. unfold mp_dispatch. cbv beta iota zeta. ifs.
+    rewrite <- app_assoc, tb2. replace (L mod 65536) with L by lia. rewrite HC, HN, HR. reflexivity.
+  - cbn [app]. unfold mp_dispatch. cbv beta iota zeta. ifs.
+    rewrite <- app_assoc, tb4. replace (L mod 4294967296) with L by lia. rewrite HC, HN, HR. reflexivity.
+Qed.
+
+Lemma dispatch_map : forall rd ms rest, u32 (length ms) = true -> ssorted (map fst ms) = true ->
+  Forall (fun kx => reads_back rd (GStr (fst kx)) /\ reads_back rd (snd kx)) ms ->
+  match mp_bytes (GMap ms) ++ rest with
+  | c :: r => mp_dispatch rd c r = Some (GMap ms, rest)
+  | [] => False
+  end.
+Proof.
+  intros rd ms rest Hu Hs Hl. unfold u32 in Hu. cbn [mp_bytes]. fold member_bytes.
+  change (fun kx : list Z * gtree => match kx with (k, x) => mp_str k ++ mp_bytes x end) with member_bytes.
+  unfold map_hdr, mp_len.
+  pose proof (read_members_bytes rd ms rest Hl) as HR.
+  assert (HC : count_ok (Z.of_nat (length ms)) (flat_map member_bytes ms ++ rest) = true).
+  { unfold count_ok. rewrite app_length.
+    assert (forall kx, In kx ms -> (1 <= length (member_bytes kx))%nat).
+    { intros [k x] _. unfold member_bytes. rewrite app_length. pose proof (mp_bytes_nonempty x). lia. }
+    pose proof (length_flat_map_ge _ member_bytes ms H). lia. }
+  set (L := Z.of_nat (length ms)) in *.
+  assert (HN : Z.to_nat L = length ms) by (subst L; apply Nat2Z.id).
+  assert (HL : 0 <= L < 4294967296) by lia.
+  pose proof (go_map_sorted _ ms Hs) as HG.
+  cbn [Z.ltb Z.compare andb].
+  destruct (Z.ltb_spec L 16) as [H1|H1]; [| destruct (Z.ltb_spec L 65536) as [H3|H3]].
+  - cbn [app]. unfold mp_dispatch. cbv beta iota zeta. ifs.
+    replace (128 + L - 128) with L by lia. rewrite HC, HN, HR, HG. reflexivity.
+  - cbn [app]. unfold mp_dispatch. cbv beta iota zeta. ifs.
+    rewrite <- app_assoc, tb2. replace (L mod 65536) with L by lia. rewrite HC, HN, HR, HG. reflexivity.
+  - cbn [app]. unfold mp_dispatch. cbv beta iota zeta. ifs.
+    rewrite <- app_assoc, tb4. replace (L mod 4294967296) with L by lia. rewrite HC, HN, HR, HG. reflexivity.
+Qed.
+
+(* ---------------------------------------------------------------- the reader inverts the writer *)
+Lemma gdepth_pos : forall g, (1 <= gdepth g)%nat.
+Proof. destruct g; cbn [gdepth]; lia. Qed.
+
+Lemma max_depth_in : forall (l : list gtree) m,
+  (fold_right (fun x a => Nat.max (gdepth x) a) O l <= m)%nat -> forall x, In x l -> (gdepth x <= m)%nat.
+Proof.
+  induction l as [|y l IH]; intros m H x Hx; [destruct Hx|].
+  cbn [fold_right] in H. destruct Hx as [E|Hx]; [subst; lia|]. apply IH; [lia|exact Hx].
+Qed.
+
+Lemma max_depth_in_map : forall (ms : list (list Z * gtree)) m,
+  (fold_right (fun kx a => match kx with (_, x) => Nat.max (gdepth x) a end) O ms <= m)%nat ->
+  forall kx, In kx ms -> (gdepth (snd kx) <= m)%nat.
+Proof.
+  induction ms as [|[k y] ms IH]; intros m H kx Hx; [destruct Hx|].
+  cbn [fold_right] in H. destruct Hx as [E|Hx]; [subst; cbn; lia|]. apply IH; [lia|exact Hx].
+Qed.
+
+Lemma with_dispatch : forall n (b rest : list Z) (g : gtree),
+  match b ++ rest with
+  | c :: r => mp_dispatch (mp_read n) c r = Some (g, rest)
+  | [] => False
+  end -> mp_read (S n) (b ++ rest) = Some (g, rest).
+Proof. intros n b rest g H. destruct (b ++ rest); [contradiction|]. exact H. Qed.
+
+Lemma reads_str : forall n k, str_valid k = true -> u32 (length (utf8_bytes k)) = true ->
+  reads_back (mp_read (S n)) (GStr k).
+Proof.
+  intros n k Hv Hu rest. cbn [mp_bytes]. apply with_dispatch. apply dispatch_str; assumption.
+Qed.
+
+Theorem mp_read_bytes : forall g, gt_ok g = true -> forall n rest, (gdepth g <= n)%nat ->
+  mp_read n (mp_bytes g ++ rest) = Some (g, rest).
+Proof.
+  induction g as [| b | z | b | s | l IH | ms IH] using gtree_ind_nested; intros Hok n rest Hn;
+    (destruct n as [|n]; [pose proof (gdepth_pos g); cbn [gdepth] in Hn; lia|]) || idtac.
+  - destruct n as [|n]; [cbn in Hn; lia|]. cbn [mp_bytes app mp_read]. unfold mp_dispatch. cbv beta iota zeta. ifs. reflexivity.
+  - destruct n as [|n]; [cbn in Hn; lia|]. destruct b; cbn [mp_bytes app mp_read]; unfold mp_dispatch; cbv beta iota zeta; ifs; reflexivity.
+  - destruct n as [|n]; [cbn in Hn; lia|]. cbn [mp_bytes]. apply with_dispatch. apply dispatch_int. exact Hok.
+  - destruct n as [|n]; [cbn in Hn; lia|]. cbn [gt_ok] in Hok.
+    cbn [mp_bytes app mp_read]. unfold mp_dispatch. cbv beta iota zeta. ifs.
+    rewrite tb8. replace (b mod 18446744073709551616) with b by lia. reflexivity.
+  - destruct n as [|n]; [cbn in Hn; lia|]. cbn [gt_ok] in Hok. apply andb_true_iff in Hok. destruct Hok as [Hv Hu].
+    apply (reads_str n s Hv Hu).
+  - destruct n as [|n]; [cbn in Hn; lia|]. cbn [gt_ok] in Hok. apply andb_true_iff in Hok. destruct Hok as [Hu Hall].
+    cbn [gdepth] in Hn. apply with_dispatch. apply dispatch_arr; [exact Hu|].
+    rewrite forallb_forall in Hall. rewrite Forall_forall in IH. apply Forall_forall.
+    intros x Hx rest'. apply IH; [exact Hx|apply Hall; exact Hx|].
+    apply (max_depth_in l n); [lia|exact Hx].
+  - destruct n as [|n]; [cbn in Hn; lia|]. cbn [gt_ok] in Hok.
+    apply andb_true_iff in Hok. destruct Hok as [Hok Hall].
+    apply andb_true_iff in Hok. destruct Hok as [Hu Hs].
+    cbn [gdepth] in Hn. apply with_dispatch. apply dispatch_map; [exact Hu|exact Hs|].
+    rewrite forallb_forall in Hall. rewrite Forall_forall in IH. apply Forall_forall.
+    intros [k x] Hx. specialize (Hall _ Hx). cbn beta iota in Hall.
+    apply andb_true_iff in Hall. destruct Hall as [Hk Hgx].
+    apply andb_true_iff in Hk. destruct Hk as [Hkv Hku].
+    pose proof (max_depth_in_map ms n ltac:(lia) _ Hx) as Hd. cbn [snd] in Hd.
+    pose proof (gdepth_pos x) as Hp.
+    destruct n as [|n']; [lia|].
+    split.
+    + cbn [fst]. apply reads_str; assumption.
+    + cbn [snd]. intros rest'. apply (IH _ Hx); [exact Hgx|exact Hd].
+Qed.
+
+Lemma length_flat_map_depth : forall g, (gdepth g <= length (mp_bytes g))%nat.
+Proof.
+  induction g as [| b | z | b | s | l IH | ms IH] using gtree_ind_nested.
+  - cbn. lia.
+  - cbn [gdepth]. pose proof (mp_bytes_nonempty (GBool b)). lia.
+  - cbn [gdepth]. pose proof (mp_bytes_nonempty (GInt z)). lia.
+  - cbn [gdepth]. pose proof (mp_bytes_nonempty (GFloat b)). lia.
+  - cbn [gdepth]. pose proof (mp_bytes_nonempty (GStr s)). lia.
+  - cbn [gdepth mp_bytes]. rewrite app_length.
+    assert (fold_right (fun x a => Nat.max (gdepth x) a) O l <= length (flat_map mp_bytes l))%nat.
+    { induction l as [|x l IHl]; [cbn; lia|]. inversion IH; subst.
+      cbn [fold_right flat_map]. rewrite app_length. specialize (IHl H2). lia. }
+    pose proof (mp_len_nonempty 16 144 0 220 221 (Z.of_nat (length l))) as Hh.
+    unfold arr_hdr in *. lia.
+  - cbn [gdepth mp_bytes]. rewrite app_length.
+    assert (fold_right (fun kx a => match kx with (_, x) => Nat.max (gdepth x) a end) O ms
+            <= length (flat_map (fun kx => match kx with (k, x) => mp_str k ++ mp_bytes x end) ms))%nat.
+    { induction ms as [|[k x] ms IHl]; [cbn; lia|]. inversion IH; subst. cbn [snd] in *.
+      cbn [fold_right flat_map]. rewrite !app_length. specialize (IHl H2). lia. }
+    pose proof (mp_len_nonempty 16 128 0 222 223 (Z.of_nat (length ms))) as Hh.
+    unfold map_hdr in *. lia.
+Qed.
+
+(* a whole document *)
+Theorem mp_decode_bytes : forall g, gt_ok g = true -> mp_decode (mp_bytes g) = Some g.
+Proof.
+  intros g H. unfold mp_decode.
+  rewrite <- (app_nil_r (mp_bytes g)) at 2.
+  rewrite mp_read_bytes; [reflexivity|exact H|].
+  pose proof (length_flat_map_depth g). lia.
 Qed.
